@@ -45,8 +45,15 @@ def mapping_rules(chk):
         def call_hook(it, path, ct, node):
             if ct[0] != "call":
                 return None
-            if _is_logging_pop(ct) and ct[1][1] == cfg and len(ct[2]) == 1:
-                return [("value", ("sym", "logging_mapping"))] if logging_present else [("raise", KEYERROR)]
+            if _is_logging_pop(ct) and ct[1][1] == cfg:
+                if len(ct[2]) == 1 and ct[1][2] == "pop":
+                    return [("value", ("sym", "logging_mapping"))] if logging_present else [("raise", KEYERROR)]
+                default = ct[2][1] if len(ct[2]) > 1 else ("const", None)
+                return [("value", ("sym", "logging_mapping") if logging_present else default)]
+            if ct[1][0] == "attr" and ct[1][1] == cfg and ct[1][2] == "get" and section_present is not None and ct[2] and ct[2][0] != ("const", "logging"):
+                default = ct[2][1] if len(ct[2]) > 1 else ("const", None)
+                path.ev("section-get", ct[2][0])
+                return [("value", ("sym", "section_data") if section_present else default)]
             if _is_digest(ct):
                 if digest_raises is not None:
                     return [("raise", digest_raises)]
@@ -60,7 +67,16 @@ def mapping_rules(chk):
                 return [("raise", KEYERROR)]
             return None
 
-        it = Interp(prog, fi, call_hook=call_hook, sub_hook=sub_hook, unroll=1)
+        def decide(it, path, term):
+            if term[0] == "cmp" and term[1] == "in" and term[3] == cfg:
+                if term[2] == ("const", "logging"):
+                    return logging_present
+                return section_present
+            if term == ("isnone", ("sym", "logging_mapping")):
+                return False
+            return None
+
+        it = Interp(prog, fi, call_hook=call_hook, sub_hook=sub_hook, decide=decide, unroll=1)
         return it, it.run()
 
     r = "O14.1"
@@ -117,7 +133,7 @@ def mapping_rules(chk):
         evs = o.path.events
         if any(e[0] == "branch" and _mentions_sections(e[1]) and any(s == cfg for s in subterms(e[1])) and e[2] is True for e in evs):
             continue  # rejected earlier
-        if not any(e[0] == "raised-at-subscript" for e in evs):
+        if not any(e[0] == "loop-iter" for e in evs):
             continue  # zero plugins
         req = [e for e in evs if e[0] == "branch" and any(s[0] == "attr" and s[2] == "required" for s in subterms(e[1]))]
         if any(e[0] == "call" and _is_digest(e[1]) for e in evs):
